@@ -17,7 +17,7 @@ CHECKS = {
    "7.2"),
  "C18": (True, "keysrel", "model_checking",
    "exhaustive enumeration of channel-creation orders, restart points and setup masks on real nodes with a relational oracle",
-   "Seeds x {native, LDK} x networks x every ordered arrangement of every non-empty subset of channel ids {1,2,3} x restart position x set-up mask: basepoints, funding key, per-commitment points and 16 secrets of every channel are observed as stub, after setup and at the end; all observations of the same (seed, style, network, id) must be identical across all runs, different ids/seeds must give different keys, and the secrets must equal an independent BOLT-3 generate_from_seed and be accepted in order by the compact store.",
+   "Seeds x {native, LDK} x networks x every ordered arrangement of every non-empty subset of channel ids {1,2,3} x restart position x set-up mask: basepoints, funding key, per-commitment points and 16 secrets of every channel are observed as stub, after setup and at the end; all observations of the same (seed, style, network, id) must be identical across all runs, different ids/seeds must give different keys, and the secrets must equal an independent BOLT-3 generate_from_seed and be accepted in order by the compact store. A channel is also advanced through six real commitments (with a restart): every point / secret the request path hands out for a number must be the key material's for that number.",
    "Secrets are read from the key material (not through the policy path).",
    "7.3"),
  "C12": (True, "velocity+nodevel", "model_checking",
@@ -37,7 +37,7 @@ CHECKS = {
    "6.1"),
  "C14": (True, "chainmc", "model_checking",
    "explicit-state BFS over connect/disconnect paths through AddBlock/RemoveBlock/BlockChunk on a real node; differential oracle against a fresh signer that connects only the best chain",
-   "Every connect/disconnect path (blocks = every UTXO-valid ordered subset of <= 2 (3) menu transactions: funding with two inputs, two double-spends, mutual close, holder / counterparty / revoked commitment, sweep, first- and second-level HTLC spends) with chains of <= 3 (4) blocks, compact and streamed delivery, closes; after every transition the monitor state, chain state, listen slot and header window must equal those of a fresh signer fed only the surviving chain; a panic is a violation.",
+   "Every connect/disconnect path (also from a base in which the commitment, the main sweep and both first-level HTLC spends are already confirmed; blocks = every UTXO-valid ordered subset of <= 2 (3) menu transactions: funding with two inputs, two double-spends, mutual close, holder / counterparty / revoked commitment, sweep, first- and second-level HTLC spends) with chains of <= 3 (4) blocks, compact and streamed delivery, closes; after every transition the monitor state, chain state, listen slot and header window must equal those of a fresh signer fed only the surviving chain; a panic is a violation.",
    "Channel prepared through the public API at commitment 1 on both sides with one offered and one received HTLC (preimage known).",
    "6.2"),
  "C01": (True, "chanfsm", "model_checking",
@@ -97,12 +97,12 @@ CHECKS = {
    "4.5"),
  "C19": (True, "wirert", "model_checking",
    "exhaustive enumeration, per message type of the registry (code generated from msgs.rs at check time), of the base value, every single field deviation and (thorough) every pair over per-type value alphabets; field-by-field and byte-level round-trip oracle, semantic oracle for streamed PSBTs",
-   "tools/gen_wire.py parses every #[message_id] struct and the Message enum of vls-protocol/src/msgs.rs before each build and emits a builder and a checker per type (109 types; a struct missing from the parse, a count mismatch with the enum or a field type without an alphabet is a machinery failure). Alphabets: integers {position-dependent base, 0, 1, max}, fixed arrays {pattern, zeros, 0xff}, Octets {short, empty, 1, 65535 bytes}, LargeOctets up to 70000, arrays {one, none, three, one element per element deviation}, options present / absent, strings, transactions (minimal, two inputs with witnesses, 20 outputs), PSBTs (bare, witness utxo, non-witness utxo, paths and scripts), block headers, proofs built with txoo, and for streamed PSBTs every sequence of 1-2 (selected 3) inputs over {previous tx segwit / legacy / + matching witness utxo / + contradicting witness utxo, witness utxo only, nothing}. Oracle: msgs::from_vec(m.as_vec()) yields the same variant, every field encoded on its own is byte-identical before and after, the decoded message re-encodes to the original bytes, the typed decoder agrees; for streamed PSBTs the decoded transaction, per-input previous outputs, segwit flags, scripts and paths equal those implied by the encoded PSBT.",
+   "tools/gen_wire.py parses every #[message_id] struct and the Message enum of vls-protocol/src/msgs.rs before each build and emits a builder and a checker per type (109 types; a struct missing from the parse, a count mismatch with the enum or a field type without an alphabet is a machinery failure). Alphabets: integers {position-dependent base, 0, 1, max}, fixed arrays {pattern, zeros, 0xff}, Octets {short, empty, 1, 65535 bytes}, LargeOctets up to 70000, fillers that make the whole message exactly 128 KiB long, arrays {one, none, three, one element per element deviation}, options present / absent, strings, transactions (minimal, two inputs with witnesses, 20 outputs), PSBTs (bare, witness utxo, non-witness utxo, paths and scripts), block headers, proofs built with txoo, and for streamed PSBTs every sequence of 1-2 (selected 3) inputs over {previous tx segwit / legacy / + matching witness utxo / + contradicting witness utxo, witness utxo only, nothing}. Oracle: msgs::from_vec(m.as_vec()) yields the same variant, every field encoded on its own is byte-identical before and after, the decoded message re-encodes to the original bytes, the typed decoder agrees; for streamed PSBTs the decoded transaction, per-input previous outputs, segwit flags, scripts and paths equal those implied by the encoded PSBT.",
    "Trailing bytes / proper prefixes are recorded as observations only. Developer-only message types are not in the build under test. A PSBT whose witness utxo contradicts its previous transaction may be refused by the decoder.",
    "7.4"),
  "C20": (True, "concur", "model_checking",
    "stateless model checking of the real Node under shuttle's runtime with an own preemption-bounded depth-first scheduler (iterative context bounding); linearizability by brute force against all sequential orders",
-   "vls-core is built with --cfg vls_verif so that every Mutex of its prelude (node state, channel map, channel slots, tracker, monitor state, stores) is shuttle's. For each of ~120 scenarios (every unordered pair of 14 request kinds, twelve of them also against themselves - commitment updates, forget/new/setup channel, balance, heartbeat, keysend, on-chain check and signature, block with the channel's close (compact and streamed), empty block, allowlist - plus the single-channel races validate||revoke, sign-holder||revoke, sign-counterparty||counterparty-revocation, two allowlist updates, a channel used while it is being set up, two channels paying the same invoice; thorough adds triples) every schedule of the request threads with <= 1 (2) preemptions is executed to completion on a freshly built node, and <= 2 (3) preemptions as far as the budget goes; a schedule that cannot complete is a deadlock, and the tuple (replies, fingerprint of live state and store) must equal that of some sequential order of the same requests.",
+   "vls-core is built with --cfg vls_verif so that every Mutex of its prelude (node state, channel map, channel slots, tracker, monitor state, stores) is shuttle's. For each of ~120 scenarios (every unordered pair of 14 request kinds, twelve of them also against themselves - commitment updates, forget/new/setup channel, balance, heartbeat, keysend, on-chain check and signature, block with the channel's close (compact and streamed), empty block, allowlist - plus the single-channel races validate||revoke, sign-holder||revoke, sign-counterparty||counterparty-revocation, two allowlist updates, a channel used while it is being set up, two channels paying the same invoice, a balance query beside a thread that closes two of three channels one after the other; thorough adds triples) every schedule of the request threads with <= 1 (2) preemptions is executed to completion on a freshly built node, and <= 2 (3) preemptions as far as the budget goes; a schedule that cannot complete is a deadlock, and the tuple (replies, fingerprint of live state and store) must equal that of some sequential order of the same requests that keeps each thread's own order.",
    "Scheduling points are mutex operations (sequentially consistent); locks taken directly from std (redb store) are not in the scenarios. Replaying a prefix with a different enabled set is a machinery error.",
    "8"),
 }
